@@ -73,7 +73,7 @@ def main():
         subprocess.run([os.path.join(HERE, "build.sh")], check=True)
         results = {}
         for p in props:
-            r = subprocess.run([os.path.join(HERE, "bin", "apcheck"), "-verif", HERE, "-target", dst, "-property", p, "-no-evidence"], env=ENV, capture_output=True, text=True)
+            r = subprocess.run([os.environ.get("APBIN") or os.path.join(HERE, "bin", "apcheck"), "-verif", HERE, "-target", dst, "-property", p, "-no-evidence"], env=ENV, capture_output=True, text=True)
             fails = [l[:300] for l in (r.stdout + r.stderr).splitlines() if l.startswith("FAIL ")]
             results[p] = {"exit": r.returncode, "fails": fails[:10], "nfails": len(fails)}
         meta["checks"] = results
